@@ -1444,6 +1444,15 @@ func (x *Exec) binopVals(st *State, op token.Token, a, b *Val, rt types.Type, po
 			return &Val{T: x.strEqual(st, a.T, b.T), Typ: rt}
 		case token.NEQ:
 			return &Val{T: Not(x.strEqual(st, a.T, b.T)), Typ: rt}
+		case token.LSS:
+			// the lexicographic order is an uninterpreted total order (gs.lt): nothing but its totality is used
+			return &Val{T: UF("gs.lt", SBool, a.T, b.T), Typ: rt}
+		case token.GTR:
+			return &Val{T: UF("gs.lt", SBool, b.T, a.T), Typ: rt}
+		case token.LEQ:
+			return &Val{T: Not(UF("gs.lt", SBool, b.T, a.T)), Typ: rt}
+		case token.GEQ:
+			return &Val{T: Not(UF("gs.lt", SBool, a.T, b.T)), Typ: rt}
 		}
 		unsupportedf("string operator %s", op)
 	}
